@@ -13,9 +13,13 @@
 #include "reflect.h"
 using namespace Vector::BLF;
 
+// the allocation cap stands for the machine's memory: it applies to what the library allocates (inside `Capped` scopes),
+// not to the harness' own answer strings
 static size_t CAP = 268435456;
-void* operator new(size_t n) { if (n > CAP) throw std::bad_alloc(); void* p = malloc(n ? n : 1); if (!p) throw std::bad_alloc(); return p; }
-void* operator new[](size_t n) { if (n > CAP) throw std::bad_alloc(); void* p = malloc(n ? n : 1); if (!p) throw std::bad_alloc(); return p; }
+static bool g_capped = false;
+struct Capped { Capped() { g_capped = true; } ~Capped() { g_capped = false; } };
+void* operator new(size_t n) { if (g_capped && n > CAP) throw std::bad_alloc(); void* p = malloc(n ? n : 1); if (!p) throw std::bad_alloc(); return p; }
+void* operator new[](size_t n) { if (g_capped && n > CAP) throw std::bad_alloc(); void* p = malloc(n ? n : 1); if (!p) throw std::bad_alloc(); return p; }
 void operator delete(void* p) noexcept { free(p); }
 void operator delete[](void* p) noexcept { free(p); }
 void operator delete(void* p, size_t) noexcept { free(p); }
@@ -60,7 +64,7 @@ static std::string do_enc(std::istringstream& is, bool poison) {
     uint32_t s0 = o->calculateObjectSize();
     UncompressedFile uf;
     std::string halt = "none";
-    try { o->write(uf); } catch (Exception&) { halt = "exc"; } catch (std::bad_alloc&) { halt = "badalloc"; } catch (std::length_error&) { halt = "badalloc"; }
+    try { Capped cap; o->write(uf); } catch (Exception&) { halt = "exc"; } catch (std::bad_alloc&) { halt = "badalloc"; } catch (std::length_error&) { halt = "badalloc"; }
     std::streamsize n = uf.tellp();
     std::vector<uint8_t> out(size_t(n > 0 ? n : 0));
     if (n > 0) uf.read(reinterpret_cast<char*>(out.data()), n);
@@ -78,7 +82,7 @@ static std::string do_dec(std::istringstream& is, bool reenc) {
     ObjectHeaderBase* o = c->make();
     std::string halt = "none";
     Tracker tf(uf);
-    try { o->read(tf); } catch (Exception&) { halt = "exc"; } catch (std::bad_alloc&) { halt = "badalloc"; } catch (std::length_error&) { halt = "badalloc"; }
+    try { Capped cap; o->read(tf); } catch (Exception&) { halt = "exc"; } catch (std::bad_alloc&) { halt = "badalloc"; } catch (std::length_error&) { halt = "badalloc"; }
     if (halt == "badalloc") { delete o; return std::string(reenc ? "reenc" : "dec") + " halt=badalloc"; }
     bool good = uf.good(), eof = uf.eof();
     std::vector<char> tmp(b.size() + 8);
@@ -89,7 +93,7 @@ static std::string do_dec(std::istringstream& is, bool reenc) {
     else if (halt == "none" && !tf.short_) {
         // decoded completely: encode the decoded object again
         UncompressedFile uo; std::string h2 = "none";
-        try { o->write(uo); } catch (Exception&) { h2 = "exc"; } catch (std::bad_alloc&) { h2 = "badalloc"; } catch (std::length_error&) { h2 = "badalloc"; }
+        try { Capped cap; o->write(uo); } catch (Exception&) { h2 = "exc"; } catch (std::bad_alloc&) { h2 = "badalloc"; } catch (std::length_error&) { h2 = "badalloc"; }
         std::streamsize n = uo.tellp(); std::vector<uint8_t> out(size_t(n > 0 ? n : 0));
         if (n > 0) uo.read(reinterpret_cast<char*>(out.data()), n);
         r += " ehalt=" + h2 + " out=" + to_hex(out.data(), out.size());
